@@ -87,3 +87,6 @@ CHECKS["C19"] = ("metamorphic property-based testing: valid history H vs H with 
 CHECKS["C17"] = ("round-trip property-based testing: generated scripts with tortured (quoted / reserved / clashing) names; every printed model, value, core, interpolant and dumped query is read back by z3/cvc5/opensmt and compared semantically",
                  "Generated scripts over a name-torture pool; printed SMT-LIB must be readable by another tool and denote the same object. Known findings are keyed by violation kind plus the name feature that triggers them (coarser than for other properties). Exploration only.",
                  "z3 python and cvc5 as independent readers (|as| and |_| excluded: z3 refuses them as declared names)", "DESIGN.md §4 C17")
+CHECKS["C10"] = ("property-based testing with an independent proof checker (own reader of the printed proof + resolution replay + z3/cvc5 for leaves)",
+                 "Generated unsat scripts with :produce-proofs and push/pop; every printed proof is replayed step by step, its leaves are tied to active levels and checked to follow from the active assertions or to be valid. Exploration only.",
+                 "own proof reader/checker; z3 (+cvc5) for leaf implication", "DESIGN.md §4 C10")
